@@ -1,3 +1,4 @@
+mod crash;
 mod decode;
 mod exec;
 mod gen;
@@ -6,6 +7,7 @@ mod hist;
 mod metric;
 mod nodeids;
 mod search;
+mod txn;
 
 use std::collections::BTreeSet;
 use std::io::Write;
@@ -231,6 +233,46 @@ fn main() {
             };
             write_trace(&format!("{out}.ndjson"), &[r.line]);
             println!("{}", json!({"schedules": 1}));
+        }
+        "crash-child" => crash::child(&args),
+        "crash" => {
+            let seed: u64 = arg(&args, "--seed").map(|s| s.parse().unwrap()).unwrap_or(1);
+            let count: usize = arg(&args, "--count").map(|s| s.parse().unwrap()).unwrap_or(2);
+            let out = arg(&args, "--out").expect("--out prefix");
+            let first_no: usize = arg(&args, "--first").map(|s| s.parse().unwrap()).unwrap_or(0);
+            let thorough = args.iter().any(|a| a == "--thorough");
+            let mut lines = Vec::new();
+            let mut points = 0;
+            for k in 0..count {
+                let (ev, n) = crash::parent(seed.wrapping_mul(1_000_003).wrapping_add(k as u64), first_no + k, thorough);
+                lines.extend(ev);
+                points += n;
+            }
+            write_trace(&format!("{out}.ndjson"), &lines);
+            std::fs::write(format!("{out}.hist.json"), json!((0..count).map(|k| json!({"label": format!("crash:{}", seed.wrapping_mul(1_000_003).wrapping_add(k as u64)), "indexes": [], "ops": []})).collect::<Vec<_>>()).to_string()).unwrap();
+            println!("{}", json!({"histories": count, "events": lines.len(), "kill_points": points, "builds_ok": 0, "builds_err": 0, "panics": 0,
+                "nontrivial_builds": 0, "distinct_forests": points, "first_no": first_no, "threads": 1}));
+        }
+        "txn" => {
+            let seed: u64 = arg(&args, "--seed").map(|s| s.parse().unwrap()).unwrap_or(1);
+            let count: usize = arg(&args, "--count").map(|s| s.parse().unwrap()).unwrap_or(2);
+            let out = arg(&args, "--out").expect("--out prefix");
+            let first_no: usize = arg(&args, "--first").map(|s| s.parse().unwrap()).unwrap_or(0);
+            let thorough = args.iter().any(|a| a == "--thorough");
+            let mut lines = Vec::new();
+            let mut observes = 0;
+            for k in 0..count {
+                let s = seed.wrapping_mul(1_000_003).wrapping_add(k as u64);
+                let readers = [1usize, 2, 4, 8][(s % 4) as usize];
+                let bt = [1usize, 1, 4][(s % 3) as usize];
+                let ev = txn::run(s, first_no + k, readers, if thorough { 12 } else { 6 }, bt);
+                observes += ev.iter().filter(|e| e["ev"] == "R.Observe").count();
+                lines.extend(ev);
+            }
+            write_trace(&format!("{out}.ndjson"), &lines);
+            std::fs::write(format!("{out}.hist.json"), json!((0..count).map(|k| json!({"label": format!("txn:{}", seed.wrapping_mul(1_000_003).wrapping_add(k as u64)), "indexes": [], "ops": []})).collect::<Vec<_>>()).to_string()).unwrap();
+            println!("{}", json!({"histories": count, "events": lines.len(), "observations": observes, "builds_ok": 0, "builds_err": 0, "panics": 0,
+                "nontrivial_builds": 0, "distinct_forests": observes, "first_no": first_no, "threads": 0}));
         }
         "replay" => {
             let file = arg(&args, "--hist").expect("--hist file");
